@@ -748,7 +748,7 @@ func describeShallow(v ssa.Value, d func(ssa.Value) string) string {
 		}
 		return x.Op.String() + d(x.X)
 	case *ssa.Alloc:
-		return "local:" + x.Comment
+		return "local:" + localName(x)
 	case *ssa.BinOp:
 		// x + 0, x - 0, x | 0: the value is x (a helper given a zero offset)
 		ys := d(x.Y)
@@ -1777,4 +1777,12 @@ func refParams(f *ssa.Function) []*ssa.Parameter {
 		out[perm[i]] = p
 	}
 	return out
+}
+
+// localName: the name of a local, in the reference tree's spelling when it was only renamed.
+func localName(a *ssa.Alloc) string {
+	if old, ok := curRenames.localAlias[a]; ok {
+		return old
+	}
+	return a.Comment
 }
